@@ -37,6 +37,7 @@ def BOUNDS(tier):
         ladders="1..30 (fcfs); MILP path for K<=%d" % LAD_MILP[tier],
         strings="length<=%d over 3 types; length<=%d over ( plus each of the other 29 types" % ((8, 5) if q else (10, 6)),
         multistrand="strings of length<=%d split into 1..3 strands" % (5 if q else 6),
+        solver_stopped="M(N<=%d) x {raise, not_solved, infeasible, unbounded, undefined, no solver}" % (6 if q else 8),
     )
 
 
@@ -52,6 +53,7 @@ def families(tier):
                                        for s in enum2d.balanced_strings(L, (0, t)) if enum2d.OPEN[t] in s), 1),
         ("multistrand", lambda: _multistrand(5 if q else 6), 1),
     ]
+    fams.append(("solver-stopped", lambda: ({**c, "stopped": beh} for c in enum2d.M(6 if q else 8) for beh in ("raise", "not_solved", "infeasible", "unbounded", "undefined", "none")), 1))
     if not q:
         lf = lambda lv: sum(1 for x in lv if x == 2) <= 1
         fams.append(("D6", lambda: enum2d.D(6, kmin=6, length_filter=lf), 1))
@@ -86,6 +88,15 @@ def run_case(case):
     b = call("from_string", build, out, case, shift)
     if b is None:
         return dict(nontrivial=True, outcome="build-failed", violations=out)
+    if "stopped" in case:
+        # the notation produced when the solver does not deliver a solution is also "a dot-bracket string the library produces"
+        from mc import seams
+
+        solver = seams.FaultSolver([case["stopped"]]) if case["stopped"] != "none" else None
+        d = call("convert_to_dot_bracket[solver %s]" % case["stopped"], b.convert_to_dot_bracket, out, solver)
+        if d is not None:
+            check_dbn("solver-stopped", case, seq, d, out)
+        return dict(nontrivial=knotted, outcome="solver-stopped", violations=out)
     # BpSeq text round trip
     from rnapolis.common import BpSeq
 
